@@ -156,4 +156,24 @@ PROPS = {
         "assumptions": [],
         "gen_obligations": ["C18_table_total is decided over known_spinfactors / SF_4Body regenerated from goofit.py"],
     },
+    "C19": {
+        "harness": "c19",
+        "theorems": ["DL.C19_sinks", "DL.C19_returned_is_printed", "DL.runSinks_all_printer", "DL.C19_coeff_names", "DL.C19_distinct"],
+        "partial": ["'the two outputs contain the same declarations' and 'every symbol is declared before use' are decided by parsing both "
+                    "real outputs back (harness); the Lean side proves the clauses that are static in the source: all output calls go through "
+                    "`printer`, and the coefficient-name suffixes of both emitters",
+                    "that the Python output runs is checked by executing it against a recording stand-in for goofit (runtime)"],
+        "assumptions": ["premise of the property: the file defines the parameters its lineshapes need; the K-matrix parameter the emitted code "
+                        "calls sA_0 is the one whose programmatic name is sA_0, i.e. a line named sA0; the shipped model does not define it, "
+                        "so for that file the symbol is pre-bound in the stand-in and exempt from the declared-before-use clause"],
+        "gen_obligations": ["C19_sinks and C19_coeff_names are decided over data regenerated from ampgen2goofit.py and goofit.py"],
+    },
+    "C20": {
+        "harness": "c20",
+        "theorems": ["DL.C20_history", "DL.C20_policy", "DL.C20_sequence", "DL.C20_needs_reset"],
+        "partial": ["hash-seed independence and exact reproducibility in a fresh process are runtime behaviour: subprocess sweep in the harness",
+                    "the comparison ignores the timestamp line and the order of the declarations before the amplitude section"],
+        "assumptions": ["'reproduces the text exactly in a fresh process' is taken under an equal hash seed (the summary header iterates over a set of strings)"],
+        "gen_obligations": ["C20_policy is decided over the reset policy regenerated from the AST of amplitudechain.py"],
+    },
 }
